@@ -93,6 +93,16 @@ AXIOMS['join'] = [
                                     f_join(_t, z3.Concat(_q, z3.Unit(VStr(_s)))) == z3.Concat(f_join(_t, _q), _t, _s)),
               patterns=[f_join(_t, z3.Concat(_q, z3.Unit(VStr(_s))))]),
 ]
+_v = z3.Const('ax_v', Val)
+AXIOMS['join'] += [
+    # join of split gives the string back; appending one string appends separator + string
+    z3.ForAll([_s, _t], Implies(z3.Length(_t) > 0, f_join(_t, f_split(_s, _t)) == _s), patterns=[f_split(_s, _t)]),
+    z3.ForAll([_t, _q, _v], Implies(And(z3.Length(_q) >= 1, is_str(_v)),
+                                    f_join(_t, z3.Concat(_q, z3.Unit(_v))) == z3.Concat(f_join(_t, _q), _t, vs(_v))),
+              patterns=[f_join(_t, z3.Concat(_q, z3.Unit(_v)))]),
+    z3.ForAll([_t, _v], Implies(is_str(_v), f_join(_t, z3.Unit(_v)) == vs(_v)), patterns=[f_join(_t, z3.Unit(_v))]),
+]
+AXIOMS['split'] += [z3.ForAll([_s, _t], Implies(z3.Length(_t) > 0, f_join(_t, f_split(_s, _t)) == _s), patterns=[f_split(_s, _t)])]
 AXIOMS['utf8'] = [
     z3.ForAll([_s], f_decode(f_encode(_s)) == _s, patterns=[f_encode(_s)]),
 ]
@@ -626,6 +636,21 @@ AX_INST = {
                           [Implies(And(z3.Length(t) > 0, Not(z3.Contains(s, t))), f_split(s, t) == z3.Unit(VStr(s)))],
     'utf8': lambda s: [f_decode(f_encode(s)) == s],
 }
+AX_INST['split'] = (lambda g: (lambda s, t: g(s, t) + [Implies(z3.Length(t) > 0, f_join(t, f_split(s, t)) == s)]))(AX_INST['split'])
+
+
+def _join_inst(t, q):
+    out = []
+    if z3.is_app(q) and q.decl().kind() == z3.Z3_OP_SEQ_CONCAT and q.num_args() == 2:
+        a, b = q.arg(0), q.arg(1)
+        if z3.is_app(b) and b.decl().kind() == z3.Z3_OP_SEQ_UNIT:
+            v = b.arg(0)
+            out.append(Implies(And(z3.Length(a) >= 1, is_str(v)), f_join(t, q) == z3.Concat(f_join(t, a), t, vs(v))))
+            out.append(Implies(And(z3.Length(a) == 0, is_str(v)), f_join(t, q) == vs(v)))
+    return out
+
+
+AX_INST['join'] = _join_inst
 
 
 # ------------------------------------------------------------------------------------ E-URL / E-B64 (library functions)
@@ -744,3 +769,36 @@ def b_b64decode(ex, st, args, kwargs, node):
     good, bad = ex.fork(st, ok, None)
     raises = [ex.raised(bad, 'builtins:ValueError')] if bad is not None else []
     return ([(good, SV(VBytes(f_unb64(payload)), Ty.BYTES))] if good is not None else []), raises
+
+
+f_quote = z3.Function('quote', StrS, StrS)          # urllib.parse.quote / unquote (E-URL)
+f_unquote = z3.Function('unquote', StrS, StrS)
+SP.STR_FUNCS.update(quote=f_quote, unquote=f_unquote)
+AXIOMS['quote'] = [
+    z3.ForAll([_s], f_unquote(f_quote(_s)) == _s, patterns=[f_quote(_s)]),
+    z3.ForAll([_s], And(Not(z3.Contains(f_quote(_s), z3.StringVal(' '))), Not(z3.Contains(f_quote(_s), z3.StringVal(','))),
+                        Not(z3.Contains(f_quote(_s), z3.StringVal('=')))), patterns=[f_quote(_s)]),
+    z3.ForAll([_s], (z3.Length(f_quote(_s)) == 0) == (z3.Length(_s) == 0), patterns=[f_quote(_s)]),
+]
+AXIOMS['unquote'] = []
+AX_INST['quote'] = lambda s: [f_unquote(f_quote(s)) == s, Not(z3.Contains(f_quote(s), z3.StringVal(' '))),
+                              Not(z3.Contains(f_quote(s), z3.StringVal(','))), Not(z3.Contains(f_quote(s), z3.StringVal('='))),
+                              (z3.Length(f_quote(s)) == 0) == (z3.Length(s) == 0)]
+
+
+@builtin('urllib.parse:quote')
+def b_quote(ex, st, args, kwargs, node):
+    raises = []
+    st, v = narrow(ex, st, args[0], Ty.STR, raises)
+    if st is None:
+        return [], raises
+    return [(st, S(f_quote(vs(v.term))))], raises
+
+
+@builtin('urllib.parse:unquote')
+def b_unquote(ex, st, args, kwargs, node):
+    raises = []
+    st, v = narrow(ex, st, args[0], Ty.STR, raises)
+    if st is None:
+        return [], raises
+    return [(st, S(f_unquote(vs(v.term))))], raises
